@@ -31,10 +31,24 @@ def gen_c09(rnd, sid):
                 exc_handler=rnd.random() < 0.7, run_empty=rnd.random() < 0.9, deliver_at=[])
 
 
+def gen_c09_modal_last(rnd, sid):
+    """the last screen on the stack is a modal one (shown by a signal handler on an empty or one-entry stack); it closes: the application must end"""
+    scr = dict(id=0, name="S0", title=None, text="t", height=30, input_required=True, no_separator=False, skip_check=False,
+               scripts={"input": [{"ret": rnd.choice(["CLOSE", "c", "DISCARDED", "CLOSE"])} for _ in range(4)],
+                        "show": [{"acts": [["close_sig", 0]]}] if rnd.random() < 0.3 else []})
+    base = dict(id=1, name="S1", title=None, text="b", height=30, input_required=True, no_separator=False, skip_check=False, scripts={"input": [{"ret": "CLOSE"}] * 3})
+    with_base = rnd.random() < 0.4
+    hs = [dict(cls="U0", hid=0, data=None, scripts=[[["push_modal", 0, None]] + [["enq", "U1", 0, None, sid.next()] for _ in range(rnd.randint(0, 2))]]),
+          dict(cls="U1", hid=1, data=None, scripts=[[] for _ in range(4)])]
+    init = ([["schedule", 1, None]] if with_base else []) + [["enq", "U0", 0, None, sid.next()]] + [["enq", "U1", 1, None, sid.next()] for _ in range(rnd.randint(0, 2))]
+    return dict(op="machine", mode="c09", width=80, screens=[scr, base], handlers=hs, init=init, stdin=[rnd.choice(["c", "x", "c"]) for _ in range(rnd.randint(1, 6))],
+                quit_cb=rnd.choice([None, 5]), quit_screen=None, exc_handler=True, run_empty=True, deliver_at=[])
+
+
 def generate(rnd, tier):
     n = 500 if tier == "quick" else 6000
     sid = SidCounter()
-    cases = [gen_c09(rnd, sid) for _ in range(n)] + [gen_case(rnd, "loop", sid) for _ in range(n // 2)] + [gen_case(rnd, "app", sid) for _ in range(n // 3)] + \
+    cases = [gen_c09(rnd, sid) for _ in range(n)] + [gen_c09_modal_last(rnd, sid) for _ in range(n // 3)] + [gen_case(rnd, "loop", sid) for _ in range(n // 2)] + [gen_case(rnd, "app", sid) for _ in range(n // 3)] + \
             [gen_case(rnd, "tame", sid) for _ in range(n // 5)]
     return [with_cc(c) for c in cases]
 
@@ -57,6 +71,18 @@ def monitor(case, obs):
             return "handler %d was invoked (signal %r) after %s" % (ev[1], ev[2], stop[1])
         if stop is not None and i > stop[0] and ev[0] == "EXC-handled":
             return "the exception handler was invoked after %s" % stop[1]
+    # a stop request makes run() return: every nested loop unwinds (not claimed where a blocking wait_on_input is in progress: it spins once the loop is stopped)
+    blocking_api = any(ev[0] == "api" and ev[1] == "get_user_input" for i, ev, ctx in x.events()) or any(s_.get("height", 30) < 30 for s_ in case["screens"])
+    if stop is not None and not blocking_api and obs["outcome"][0] in ("fuel", "blocked"):
+        return "%s was requested but run() did not return (%r)" % (stop[1], obs["outcome"])
+    # the last screen closes -> the application ends: no further handler, run() returns
+    prev_stack = None
+    for i, ev, ctx in x.events():
+        if ctx.get("reader") or "stack" not in ctx: continue
+        if ev[0] == "cb<" and ev[2] == "closed" and ctx["stack"] == [] and stop is None:
+            later_h = [e for e, c in x.x[i + 1:] if e[0] == "H"]
+            if later_h: return "the last screen was closed (the stack is empty) but handler %d ran afterwards" % later_h[0][1]
+            if obs["outcome"][0] in ("blocked", "fuel") and not blocking_api: return "the last screen was closed (the stack is empty) but run() did not return (%r)" % (obs["outcome"],)
     if len(quitcbs) > 1: return "the quit callback was invoked %d times" % len(quitcbs)
     if quitcbs and quitcbs[0][1] != case.get("quit_cb"): return "the quit callback got %r, registered with %r" % (quitcbs[0][1], case.get("quit_cb"))
     out = obs["outcome"]
